@@ -42,6 +42,8 @@ const POOL: &[&str] = &[
     // a csp rule that also carries `important`: still a csp rule (it injects its directive and does
     // not block)
     "||x.com^$csp=d11,important",
+    // a second unanchored csp rule in the bucket of `x.com/p$csp=d3` (same mask, another directive)
+    "x.com/q$csp=d12",
 ];
 
 fn requests() -> Vec<Req> {
@@ -134,7 +136,9 @@ fn csp_rule_applies(rule: &str, url: &str, src: &str, tags: &[String]) -> Option
 
 /// Compares the engine's CSP answer with the set algebra over the independently applicable rules.
 fn check_independent(items: &[&str], reqs: &[Req], l: &mut Local) {
-    let mut e = vh::netsweep::build_engine(items, &[], false, false);
+    // two subjects: built without and with optimisation (the csp list is optimised like any other)
+    for optimize in [false, true] {
+    let mut e = vh::netsweep::build_engine(items, &[], optimize, false);
     let tags_present = vh::alpha::tags_in(items);
     for tagset in vh::util::subsets_of(&tags_present) {
         let refs: Vec<&str> = tagset.iter().map(|s| s.as_str()).collect();
@@ -150,13 +154,14 @@ fn check_independent(items: &[&str], reqs: &[Req], l: &mut Local) {
             l.transitions += 1;
             if got.as_ref().ok() != Some(&exp) {
                 l.mismatch(vh::Mismatch {
-                    sig: "c15.csp.rule-applicability".into(),
-                    what: format!("list {:?} tags {:?} request ({}, {}, {}): option semantics give {:?}, engine {:?}", items, tagset, rq.url, rq.source, rq.ty, exp, got),
+                    sig: format!("c15.csp.rule-applicability{}", if optimize { ".optimised-engine" } else { "" }),
+                    what: format!("list {:?} tags {:?} optimize={} request ({}, {}, {}): option semantics give {:?}, engine {:?}", items, tagset, optimize, rq.url, rq.source, rq.ty, exp, got),
                     case: serde_json::json!({"rules": items, "hosts": [], "tags": tagset, "url": rq.url, "source": rq.source, "type": rq.ty, "independent": true}),
                     size: (items.len() * 10000 + rq.url.len() * 4 + rq.source.len()) as u64,
                 });
             }
         }
+    }
     }
 }
 
